@@ -77,6 +77,9 @@ func asRandomScenario(rng *rand.Rand, ops [][2]string, vias []string) (*asScenar
 	if rng.Intn(6) == 0 {
 		sc.Cfg.LaunchFail = []string{sc.Names[rng.Intn(len(sc.Names))]}
 	}
+	if rng.Intn(3) == 0 {
+		sc.Cfg.FailMode = "panic" // handlers fail by panicking instead of calling ctx.Failed
+	}
 	if rng.Intn(5) == 0 {
 		sc.Cfg.HookFail = []string{sc.Names[rng.Intn(len(sc.Names))], []string{"prerestart", "restarted", "prelaunch"}[rng.Intn(3)]}
 		if rng.Intn(2) == 0 {
